@@ -507,9 +507,20 @@ def run(ctx):
             vals.reverse()
         nfeat = r.randrange(1, 7)
         recs = []
+        # every fifth window is an EXACT tie: the first-seen value's lines have weights that add up to the single weight of
+        # the other value's line (2+3+2 against 7, 1+2 against 3, ...): the first-seen value wins, whatever the arithmetic
+        tie = None
+        if i % 5 == 0:
+            parts = r.choice([[2, 3, 2], [1, 2], [3, 3, 1], [1, 1, 1], [5, 1, 1], [1, 2, 3], [4, 3, 2], [2, 2, 3], [1, 1]])
+            tie = [(vals[0], w_) for w_ in parts] + [(vals[1], sum(parts))]
+            if r.random() < 0.5:
+                tie = tie[:1] + [tie[-1]] + tie[1:-1]             # the heavy line second: still seen after the first value
+            nfeat = len(tie)
         for j in range(nfeat):
             v = r.choice(vals)
             w = r.randrange(0, 6) if i % 3 else r.randrange(0, 10)
+            if tie is not None:
+                v, w = tie[j]
             keys = r.sample(["a", "b", "c", "d", "e", "f", "g", "h", "i"], w)
             order = list(keys)
             if r.random() < 0.5:
